@@ -15,9 +15,38 @@ fn cls(r: fjall::Result<()>) -> String {
     }
 }
 
+/// C13, journal failure in the background: 66 MiB of journal, synced; the shim is armed (the next journal system
+/// call fails once); a memtable rotation makes the worker's Flush tick seal the journal, whose fsync fails.
+/// From then on no write may be acknowledged.  Exits without dropping the database.
+fn bigrot(dir: &std::path::Path) -> ! {
+    let db = Database::builder(dir).worker_threads(1).journal_compression(CompressionType::None).open().unwrap();
+    let a = db.keyspace("a", || KeyspaceCreateOptions::default().max_memtable_size(1 << 30)).unwrap();
+    let b = db.keyspace("b", KeyspaceCreateOptions::default).unwrap();
+    let big = verif_harness::Rng::new(77).bytes(1 << 20);
+    for i in 0..66u32 { a.insert(format!("big-{i:03}"), &big[..]).unwrap(); }
+    b.insert("k", "v").unwrap();
+    db.persist(PersistMode::SyncAll).unwrap();
+    if let Ok(arm) = std::env::var("VERIF_SHIM_ARM_FILE") { std::fs::write(arm, b"x").unwrap(); }
+    let rotated = a.rotate_memtable().unwrap_or(false);
+    println!("ROTATED {rotated}");
+    // the worker takes the Flush message: journal rotation (fails), or rotation + flush + maintenance
+    let t0 = std::time::Instant::now();
+    while t0.elapsed() < std::time::Duration::from_secs(20) && (fjall::verif::queued_worker_messages(&db) > 0 || a.sealed_memtable_count() > 0) && db.journal_count() < 2 { std::thread::sleep(std::time::Duration::from_millis(20)); }
+    std::thread::sleep(std::time::Duration::from_millis(500));
+    println!("JOURNALS {}", db.journal_count());
+    println!("P insert {}", cls(b.insert("after", "x")));
+    println!("P remove {}", cls(b.remove("k")));
+    println!("P batch {}", cls({ let mut w = db.batch(); w.insert(&b, "b1", "x"); w.commit() }));
+    println!("P persist {}", cls(db.persist(PersistMode::SyncAll)));
+    use std::io::Write;
+    let _ = std::io::stdout().flush();
+    std::process::exit(0)
+}
+
 fn main() {
     let a: Vec<String> = std::env::args().collect();
     let dir = std::path::PathBuf::from(&a[1]);
+    if a.get(3).map(|x| x == "bigrot").unwrap_or(false) { bigrot(&dir); }
     let seed: u64 = a[2].parse().unwrap();
     let rotations = a.get(3).map(|x| x == "rot").unwrap_or(false);
     let w = wl::gen_with(seed, rotations);
